@@ -83,6 +83,14 @@ def generate(seed, prop, bias):
     table = [rng.choice(bias.get('waits', WAITS)) for _ in range(L)]
     nmsg = rng.randint(1, bias.get('max_msgs', 3))
     rk = rng.choice(bias.get('relays', ['script']))
+    # a queue process starting over a backlog on an announcing backend: every
+    # stored message is listed by load() *and* announced by wait(), all are
+    # due at once, and the store pool is small
+    burst = bias.get('hows') and \
+        rng.random() < bias.get('p_startup_burst', 0.0)
+    if burst:
+        backend = rng.choice(['redis', 'redis', 'cloud+mq'])
+        nmsg = rng.randint(3, 5)
     msgs = []
     outcomes = {}
     scn_write_fail = []
@@ -105,12 +113,16 @@ def generate(seed, prop, bias):
         hows = bias.get('hows')
         if hows:
             h = rng.choice(hows)
+            if burst:
+                h = 'preload'
             if h == 'announce' and backend not in ('redis', 'cloud+mq'):
                 h = 'enqueue'
             if h != 'enqueue':
                 m['how'] = h
             if h == 'preload':
                 m['due_in'] = rng.choice([-5.0, 0.0, 0.0, 2.0, 40.0])
+                if burst:
+                    m['due_in'] = rng.choice([-5.0, -5.0, 0.0])
         msgs.append(m)
         outcomes[str(k)] = gen_outcomes(rng, rcpts, L, bias)
         if nr >= 2 and 'how' not in m and split_all:
@@ -132,7 +144,8 @@ def generate(seed, prop, bias):
         'property': prop, 'harness': 'queue', 'seed': seed,
         'sched_seed': rng.getrandbits(48),
         'backend': backend, 'backoff': table,
-        'store_pool': rng.choice(bias.get('store_pools', [None, None, 1, 2, 3])),
+        'store_pool': rng.choice(bias.get('store_pools', [None, None, 1, 2, 3]))
+        if not burst else rng.choice([1, 1, 2]),
         'relay_pool': rng.choice(bias.get('relay_pools', [None, None, 1, 2])),
         'bounce_queue': rng.choice(bias.get('bounce_queues',
                                             ['self', 'self', 'separate'])),
